@@ -539,7 +539,9 @@ func exchange(c *mc.Ctx, k kind, f fault, seed int64) outcome {
 			}
 		}
 	}
-	res := sched.Run(c, sched.Options{NoPreempt: true, NoEarlyTimers: true, Start: start, MaxSteps: 200_000}, func() {
+	// (a stall after the handshake leaves the endpoint waiting in Read for good:
+	// legitimate, judged below; everything else must come back)
+	res := sched.Run(c, sched.Options{NoPreempt: true, NoEarlyTimers: true, Start: start, MaxSteps: 200_000, MainMayBlock: f.cutAt >= 0 && f.cutErr == wire.ErrStall}, func() {
 		s := sched.Cur()
 		s.Spawn("peer", func() { k.peer(peerWire, f, pr, toSend, toRecv) })
 		conn, err := k.handshake(realWire)
@@ -834,18 +836,28 @@ func ssTicketScenario(seed int64) mc.Scenario {
 		a := pt.Args{}
 		a.Add("password", base32.StdEncoding.EncodeToString(kB))
 		newT := pr.Bytes(144)
-		tickets := map[string][]byte{string(newT[32:]): newT[:32]}
+		newT2 := pr.Bytes(144)
+		tickets := map[string][]byte{string(newT[32:]): newT[:32], string(newT2[32:]): newT2[:32]}
 		var kinds []string
 		var events [][]wire.Event
 		var errs []error
 		res := sched.Run(c, sched.Options{NoPreempt: true, NoEarlyTimers: true, Start: start, MaxSteps: 200_000}, func() {
 			s := sched.Cur()
-			for i := 0; i < 2; i++ {
+			for i := 0; i < 3; i++ {
+				if i == 2 {
+					// the ticket issued on the second connection expires (7 days)
+					// while the client keeps running; the third connection finds it
+					// in the store
+					s.Advance(8 * 24 * time.Hour)
+				}
 				cw, sw := wire.Pipe("endpoint", "peer")
 				done := false
 				so := ref.SSServerOpts{KB: kB, Priv: pr.Bytes(192), PadLen: 9, Hour: s.Now().Unix() / 3600, Seed: bytes.Repeat([]byte{9}, 32), Tickets: tickets, Separate: true}
 				if i == 0 {
 					so.Issue = newT
+				}
+				if i == 1 {
+					so.Issue = newT2
 				}
 				s.Spawn("peer", func() {
 					defer func() { done = true }()
@@ -906,8 +918,12 @@ func ssTicketScenario(seed int64) mc.Scenario {
 			return
 		}
 		c.Observe("kinds", fmt.Sprint(kinds, len(errs)))
-		if len(kinds) != 2 || kinds[0] != "uniformdh" || kinds[1] != "ticket" {
+		if len(kinds) < 2 || kinds[0] != "uniformdh" || kinds[1] != "ticket" {
 			fail(c, "setup", "ticket-path-not-reached", "handshakes seen by the server: %v (errors %v)", kinds, errs)
+			return
+		}
+		if len(kinds) != 3 {
+			fail(c, "liveness", "wedged/scramblesuit-dial-after-ticket-expiry", "the connection made after the stored ticket expired did not complete: handshakes seen by the server %v, errors %v", kinds, errs)
 			return
 		}
 		for i, ev := range events {
@@ -1037,6 +1053,8 @@ type meekSrv struct {
 	mode  string
 	conns []net.Conn
 	maxQ  int
+	// most bytes of one over-long error-response body the endpoint took off the wire
+	errBodyTaken int
 }
 
 func (s *meekSrv) dial(string, string) (net.Conn, error) {
@@ -1070,6 +1088,23 @@ func (s *meekSrv) serve(conn net.Conn) {
 			ok(10) // the first request always succeeds
 		case s.mode == "status-500":
 			fmt.Fprintf(conn, "HTTP/1.1 500 Internal Server Error\r\nContent-Length: 0\r\n\r\n")
+		case s.mode == "status-503-body-1MiB":
+			// an error page far beyond what a meek response may carry
+			fmt.Fprintf(conn, "HTTP/1.1 503 Service Unavailable\r\nContent-Type: text/html\r\nContent-Length: %d\r\n\r\n", 1<<20)
+			chunk := o4h.Pattern('E', 0, 32768)
+			taken := 0
+			for i := 0; i < 32; i++ {
+				n, err := conn.Write(chunk)
+				taken += n
+				s.mu.Lock()
+				if taken > s.errBodyTaken {
+					s.errBodyTaken = taken
+				}
+				s.mu.Unlock()
+				if err != nil {
+					return
+				}
+			}
 		case s.mode == "status-404-body":
 			fmt.Fprintf(conn, "HTTP/1.1 404 Not Found\r\nContent-Length: 9\r\n\r\nnot found")
 		case s.mode == "status-302":
@@ -1136,7 +1171,7 @@ func (s *meekSrv) closeAll() {
 }
 
 func meekScenarios(cfg *mc.Config, emit func(mc.Scenario)) {
-	modes := []string{"status-500", "status-404-body", "status-302", "body-overlong", "body-max", "body-chunked-1MiB", "body-until-close-1MiB", "empty", "cut-in-headers", "cut-in-body", "garbage", "chunked-endless-header", "close-immediately"}
+	modes := []string{"status-500", "status-503-body-1MiB", "status-404-body", "status-302", "body-overlong", "body-max", "body-chunked-1MiB", "body-until-close-1MiB", "empty", "cut-in-headers", "cut-in-body", "garbage", "chunked-endless-header", "close-immediately"}
 	for _, mode0 := range append(append([]string{}, modes...), "burst/cut-in-body", "burst/close-immediately", "burst/status-500", "burst/cut-in-headers") {
 		mode0 := mode0
 		burst := strings.HasPrefix(mode0, "burst/")
@@ -1228,7 +1263,12 @@ func meekScenarios(cfg *mc.Config, emit func(mc.Scenario)) {
 			}
 			srv.mu.Lock()
 			nreq := srv.n
+			errBody := srv.errBodyTaken
 			srv.mu.Unlock()
+			c.Count("meek_error_body_bytes_taken_max", int64(errBody))
+			if errBody > 2*65536 {
+				fail(c, "bounded-buffers", "bloat/meek-error-body/"+mode, "%s: the endpoint took %d bytes of one error-response body off the wire (a meek body is at most 65536 bytes)", what, errBody)
+			}
 			if nreq > 0 && len(got) > 65536*nreq {
 				fail(c, "bounded-buffers", "bloat/meek-response/"+mode, "%s: Read delivered %d bytes out of %d responses: more than 65536 bytes of one response were buffered", what, len(got), nreq)
 			}
